@@ -8,7 +8,8 @@ column, file order).  Conventions of well-formedness are those of DESIGN §5.
 LETTERS = "spdfghik"
 SYMBOLS_1 = ["H", "C", "N", "O", "F", "B", "S", "P", "K", "I"]
 SYMBOLS_2 = ["He", "Li", "Be", "Ne", "Na", "Mg", "Al", "Si", "Cl", "Ar", "Ca", "Fe", "Zn", "Kr"]
-COMMENT_WORDS = ["basis", "set", "exchange", "version", "reference", "element", "contraction", "data"]
+COMMENT_WORDS = ["basis", "set", "exchange", "version", "reference", "element", "contraction", "data", "end", "END",
+                 "BASIS", "of", "the", "part", "spherical", "ecp"]
 
 
 def _fmt_number(rng, v, style):
@@ -177,7 +178,11 @@ def gen_spec(rng, fmt=None, max_elements=5, max_shells=8, max_l=7, max_prims=10,
         "noise_seed": rng.randrange(1 << 30),
         "inner": rng.choice([0.0, 0.0, 0.15, 0.4]),  # comment / blank lines *inside* shell blocks
         "scale_field": rng.choice(["1.00", "1.00", "1.00", "1.0", "1.20", "0.95"]),  # third field of a Gaussian94 header
-        "respell": rng.random() < 0.3,  # later blocks of a generalized contraction spell the same exponents differently
+        "respell": rng.random() < 0.3,
+        "row_sep": rng.choice(["spaces"] * 4 + ["tab", "mixed"]),  # separator between the numbers of a row
+        "hdr_indent": rng.choice([0, 0, 0, 1, 3]),  # element / shell header lines may be indented as well
+        "interleave": rng.random() < 0.12,  # NWChem: blocks of different elements interleaved; Gaussian94: an element
+                                            # heading two separate sections  # later blocks of a generalized contraction spell the same exponents differently
     }
     return {"fmt": fmt, "lead": lead_lines, "elements": elements, "layout": layout}
 
@@ -201,6 +206,42 @@ def _comment(rng):
     return " ".join(rng.choice(COMMENT_WORDS) for _ in range(rng.randint(1, 5)))
 
 
+def plan(spec):
+    """Order in which the blocks are written: a list of (element index, [shell indices]) sections.
+
+    Normally one section per element.  With ``interleave`` the shells of the elements are interleaved
+    (NWChem: every shell block carries its element tag) or an element heads two separate sections
+    (Gaussian94); the order of the shells *of one element* is never changed, so the model is the same."""
+    import random
+
+    lay = spec["layout"]
+    els = spec["elements"]
+    sections = [(ei, list(range(len(el["shells"])))) for ei, el in enumerate(els)]
+    if not lay.get("interleave") or len(els) < 2:
+        return sections
+    prng = random.Random(lay["noise_seed"] ^ 0x1EAF)
+    if spec["fmt"] == "nwchem":
+        queues = [list(sec[1]) for sec in sections]
+        out = []
+        # element 0 starts; afterwards pick any element that still has blocks (per-element order kept)
+        order = [0]
+        while any(queues):
+            live = [k for k, q in enumerate(queues) if q]
+            k = order.pop() if order and order[-1] in live else prng.choice(live)
+            out.append((k, [queues[k].pop(0)]))
+        return out
+    # Gaussian94: split one element with at least two shells into two sections, the second one later
+    cands = [k for k, sec in enumerate(sections) if len(sec[1]) >= 2 and k < len(sections) - 1]
+    if not cands:
+        return sections
+    k = prng.choice(cands)
+    cut = prng.randint(1, len(sections[k][1]) - 1)
+    first, second = sections[k][1][:cut], sections[k][1][cut:]
+    pos = prng.randint(k + 1, len(sections) - 1)
+    out = sections[:k] + [(k, first)] + sections[k + 1: pos + 1] + [(k, second)] + sections[pos + 1:]
+    return out
+
+
 def render(spec):
     import random
 
@@ -210,9 +251,13 @@ def render(spec):
     cchar = "#" if fmt == "nwchem" else "!"
     ind = " " * lay["indent"]
     sep = " " * lay["sep"]
+    if lay.get("row_sep") == "tab":
+        sep = "\t"
+    elif lay.get("row_sep") == "mixed":
+        sep = " \t "
     hsep = " " * lay["hdr_sep"]
+    hind = " " * lay.get("hdr_indent", 0)
     lines = list(spec["lead"])
-
     p_inner = lay.get("inner", 0.0)
     scale_field = lay.get("scale_field", "1.00")
 
@@ -239,27 +284,29 @@ def render(spec):
         return out
 
     first = True
-    for el in spec["elements"]:
+    for ei, shell_ids in plan(spec):
+        el = spec["elements"][ei]
         if fmt == "gbs":
             if not first:
                 lines.append("****")
                 lines.extend(noise())
-            lines.append(el["sym"] + hsep + "    0")
-        for sh in el["shells"]:
+            lines.append(hind + el["sym"] + hsep + "    0")
+        for si in shell_ids:
+            sh = el["shells"][si]
             letters = "".join(LETTERS[l] for l in sh["l"]).upper()
             K = len(sh["exps"])
             if fmt == "nwchem":
                 if not (first and not spec["lead"]):
                     lines.extend(noise())
-                lines.append(el["sym"] + hsep + letters)
+                lines.append(hind + el["sym"] + hsep + letters)
                 lines.extend(rows(sh, sh["cols"]))
             else:
                 if len(sh["l"]) == 2:  # SP: one block, two coefficient columns
-                    lines.append(letters + hsep + str(K) + hsep + scale_field)
+                    lines.append(hind + letters + hsep + str(K) + hsep + scale_field)
                     lines.extend(rows(sh, sh["cols"]))
                 else:  # M columns are written as M consecutive blocks with identical exponents
                     for ci, col in enumerate(sh["cols"]):
-                        lines.append(letters + hsep + str(K) + hsep + scale_field)
+                        lines.append(hind + letters + hsep + str(K) + hsep + scale_field)
                         if ci and lay.get("respell"):
                             lines.extend(rows(dict(sh, exps=[respell(t) for t in sh["exps"]]), [col]))
                         else:
@@ -318,11 +365,13 @@ def respell(tok):
 
 
 def model_of(spec):
-    """{element: [(l, [exps], [column]), ...]} flattened by column, file order."""
+    """{element: [(l, [exps], [column]), ...]} flattened by column, file order (elements by first appearance)."""
     out = {}
-    for el in spec["elements"]:
+    for ei, shell_ids in plan(spec):
+        el = spec["elements"][ei]
         seq = out.setdefault(el["sym"], [])
-        for sh in el["shells"]:
+        for si in shell_ids:
+            sh = el["shells"][si]
             exps = [_tok_value(t) for t in sh["exps"]]
             if len(sh["l"]) == 2:
                 for l, col in zip(sh["l"], sh["cols"]):
